@@ -199,34 +199,37 @@ Proof.
   destruct (handler _ c); [apply S7_cancel_ | apply S7_suspend | | apply S7_abandon]; exact H1.
 Qed.
 
+Lemma S7_ht_ack_eof now s : S7 s -> S7 (ht_ack_eof cksum now s).
+Proof.
+  intros H. unfold ht_ack_eof, c_timeout_occurred. cbn [fst snd].
+  set (s3 := supd_ack (fun _ => c_update now (t_ack (s_timer s))) s).
+  assert (H3 : S7 s3) by (unfold s3; s7_leaf; exact H). clearbody s3.
+  destruct (c_occurred (c_update now (t_ack (s_timer s)))); [|exact H3].
+  destruct (c_count (c_update now (t_ack (s_timer s))) =? c_max (c_update now (t_ack (s_timer s))));
+    [apply S7_handle_fault | apply S7_set_eof_flag]; exact H3.
+Qed.
 Lemma S7_handle_timeout now s : S7 s -> S7 (s_handle_timeout now s).
 Proof.
-  intros H. unfold Send.s_handle_timeout, c_limit_reached, c_timeout_occurred.
-  destruct (s_phase s) eqn:Ep; try exact H.
-  - (* SendEof *)
-    cbn [fst snd].
-    set (s1 := supd_inact (fun _ => c_update now (t_inact (s_timer s))) s).
-    assert (H1 : S7 s1) by (unfold s1; s7_leaf; exact H).
-    assert (H2 : S7 (if c_count (c_update now (t_inact (s_timer s))) =? c_max (c_update now (t_inact (s_timer s)))
-                     then s_handle_fault now InactivityDetected s1 else s1)).
-    { destruct (_ =? _); [apply S7_handle_fault|]; exact H1. }
-    clearbody s1. remember (if _ =? _ then _ else s1) as s2 eqn:E2. clear E2 H1.
-    set (s3 := supd_ack (fun _ => c_update now (t_ack (s_timer s2))) s2).
-    assert (H3 : S7 s3) by (unfold s3; s7_leaf; exact H2).
-    destruct (c_occurred _); [|exact H3].
-    destruct (_ =? _); [apply S7_handle_fault | apply S7_set_eof_flag]; exact H3.
-  - (* Cancelled *)
-    cbn [fst snd].
-    set (s1 := supd_inact (fun _ => c_update now (t_inact (s_timer s))) s).
-    assert (H1 : S7 s1) by (unfold s1; s7_leaf; exact H).
-    assert (H2 : S7 (if c_count (c_update now (t_inact (s_timer s))) =? c_max (c_update now (t_inact (s_timer s)))
-                     then s_abandon now s1 else s1)).
-    { destruct (_ =? _); [apply S7_abandon|]; exact H1. }
-    clearbody s1. remember (if _ =? _ then _ else s1) as s2 eqn:E2. clear E2 H1.
-    set (s3 := supd_ack (fun _ => c_update now (t_ack (s_timer s2))) s2).
-    assert (H3 : S7 s3) by (unfold s3; s7_leaf; exact H2).
-    destruct (c_occurred _); [|exact H3].
-    destruct (_ =? _); [apply S7_abandon | apply S7_set_eof_flag]; exact H3.
+  intros H. unfold Send.s_handle_timeout, c_limit_reached.
+  destruct (s_phase s) eqn:Ep; try exact H; cbn [fst snd].
+  - set (s1 := supd_inact (fun _ => c_update now (t_inact (s_timer s))) s).
+    assert (H1 : S7 s1) by (unfold s1; s7_leaf; exact H). clearbody s1.
+    destruct (c_count (c_update now (t_inact (s_timer s))) =? c_max (c_update now (t_inact (s_timer s)))); cbn [andb].
+    + pose proof (S7_handle_fault now InactivityDetected s1 H1) as H2.
+      destruct (negb (sphase_eqb (s_phase (s_handle_fault now InactivityDetected s1)) SendEof)
+                || negb (tstate_eqb (s_state (s_handle_fault now InactivityDetected s1)) TActive));
+        [exact H2|apply S7_ht_ack_eof; exact H2].
+    + apply S7_ht_ack_eof; exact H1.
+  - set (s1 := supd_inact (fun _ => c_update now (t_inact (s_timer s))) s).
+    assert (H1 : S7 s1) by (unfold s1; s7_leaf; exact H). clearbody s1.
+    destruct (c_count (c_update now (t_inact (s_timer s))) =? c_max (c_update now (t_inact (s_timer s))));
+      [apply S7_abandon; exact H1|].
+    unfold c_timeout_occurred. cbn [fst snd].
+    set (s3 := supd_ack (fun _ => c_update now (t_ack (s_timer s1))) s1).
+    assert (H3 : S7 s3) by (unfold s3; s7_leaf; exact H1). clearbody s3.
+    destruct (c_occurred (c_update now (t_ack (s_timer s1)))); [|exact H3].
+    destruct (c_count (c_update now (t_ack (s_timer s1))) =? c_max (c_update now (t_ack (s_timer s1))));
+      [apply S7_abandon | apply S7_set_eof_flag]; exact H3.
 Qed.
 
 Lemma S7_process_pdu now p s : S7 s -> S7 (fst (s_process_pdu now p s)).
@@ -467,30 +470,37 @@ Proof.
   assert (H1 : HS base (semit_ind (IFault c (s_sent (set_s_cond c s))) (set_s_cond c s))) by (hs_leaf base; exact H).
   destruct (handler _ c); [apply HS_cancel_ | apply HS_suspend | | apply HS_abandon]; exact H1.
 Qed.
+Lemma HS_ht_ack_eof base now s : HS base s -> HS base (ht_ack_eof cksum now s).
+Proof.
+  intros H. unfold ht_ack_eof, c_timeout_occurred. cbn [fst snd].
+  set (s3 := supd_ack (fun _ => c_update now (t_ack (s_timer s))) s).
+  assert (H3 : HS base s3) by (unfold s3; hs_leaf base; exact H). clearbody s3.
+  destruct (c_occurred (c_update now (t_ack (s_timer s)))); [|exact H3].
+  destruct (c_count (c_update now (t_ack (s_timer s))) =? c_max (c_update now (t_ack (s_timer s))));
+    [apply HS_handle_fault | apply HS_set_eof_flag]; exact H3.
+Qed.
 Lemma HS_handle_timeout base now s : HS base s -> HS base (s_handle_timeout now s).
 Proof.
-  intros H. unfold Send.s_handle_timeout, c_limit_reached, c_timeout_occurred.
+  intros H. unfold Send.s_handle_timeout, c_limit_reached.
   destruct (s_phase s) eqn:Ep; try exact H; cbn [fst snd].
   - set (s1 := supd_inact (fun _ => c_update now (t_inact (s_timer s))) s).
-    assert (H1 : HS base s1) by (unfold s1; hs_leaf base; exact H).
-    assert (H2 : HS base (if c_count (c_update now (t_inact (s_timer s))) =? c_max (c_update now (t_inact (s_timer s)))
-                     then s_handle_fault now InactivityDetected s1 else s1)).
-    { destruct (_ =? _); [apply HS_handle_fault|]; exact H1. }
-    clearbody s1. remember (if _ =? _ then _ else s1) as s2 eqn:E2. clear E2 H1.
-    set (s3 := supd_ack (fun _ => c_update now (t_ack (s_timer s2))) s2).
-    assert (H3 : HS base s3) by (unfold s3; hs_leaf base; exact H2).
-    destruct (c_occurred _); [|exact H3].
-    destruct (_ =? _); [apply HS_handle_fault | apply HS_set_eof_flag]; exact H3.
+    assert (H1 : HS base s1) by (unfold s1; hs_leaf base; exact H). clearbody s1.
+    destruct (c_count (c_update now (t_inact (s_timer s))) =? c_max (c_update now (t_inact (s_timer s)))); cbn [andb].
+    + pose proof (HS_handle_fault base now InactivityDetected s1 H1) as H2.
+      destruct (negb (sphase_eqb (s_phase (s_handle_fault now InactivityDetected s1)) SendEof)
+                || negb (tstate_eqb (s_state (s_handle_fault now InactivityDetected s1)) TActive));
+        [exact H2|apply HS_ht_ack_eof; exact H2].
+    + apply HS_ht_ack_eof; exact H1.
   - set (s1 := supd_inact (fun _ => c_update now (t_inact (s_timer s))) s).
-    assert (H1 : HS base s1) by (unfold s1; hs_leaf base; exact H).
-    assert (H2 : HS base (if c_count (c_update now (t_inact (s_timer s))) =? c_max (c_update now (t_inact (s_timer s)))
-                     then s_abandon now s1 else s1)).
-    { destruct (_ =? _); [apply HS_abandon|]; exact H1. }
-    clearbody s1. remember (if _ =? _ then _ else s1) as s2 eqn:E2. clear E2 H1.
-    set (s3 := supd_ack (fun _ => c_update now (t_ack (s_timer s2))) s2).
-    assert (H3 : HS base s3) by (unfold s3; hs_leaf base; exact H2).
-    destruct (c_occurred _); [|exact H3].
-    destruct (_ =? _); [apply HS_abandon | apply HS_set_eof_flag]; exact H3.
+    assert (H1 : HS base s1) by (unfold s1; hs_leaf base; exact H). clearbody s1.
+    destruct (c_count (c_update now (t_inact (s_timer s))) =? c_max (c_update now (t_inact (s_timer s))));
+      [apply HS_abandon; exact H1|].
+    unfold c_timeout_occurred. cbn [fst snd].
+    set (s3 := supd_ack (fun _ => c_update now (t_ack (s_timer s1))) s1).
+    assert (H3 : HS base s3) by (unfold s3; hs_leaf base; exact H1). clearbody s3.
+    destruct (c_occurred (c_update now (t_ack (s_timer s1)))); [|exact H3].
+    destruct (c_count (c_update now (t_ack (s_timer s1))) =? c_max (c_update now (t_ack (s_timer s1))));
+      [apply HS_abandon | apply HS_set_eof_flag]; exact H3.
 Qed.
 Lemma HS_process_pdu base now p s : HS base s -> HS base (fst (s_process_pdu now p s)).
 Proof.
@@ -639,30 +649,37 @@ Proof.
   assert (H1 : SU (semit_ind (IFault c (s_sent (set_s_cond c s))) (set_s_cond c s))) by (su_leaf; exact H).
   destruct (handler _ c); [apply SU_cancel_ | apply SU_suspend | | apply SU_abandon]; exact H1.
 Qed.
+Lemma SU_ht_ack_eof now s : SU s -> SU (ht_ack_eof cksum now s).
+Proof.
+  intros H. unfold ht_ack_eof, c_timeout_occurred. cbn [fst snd].
+  set (s3 := supd_ack (fun _ => c_update now (t_ack (s_timer s))) s).
+  assert (H3 : SU s3) by (unfold s3; su_leaf; exact H). clearbody s3.
+  destruct (c_occurred (c_update now (t_ack (s_timer s)))); [|exact H3].
+  destruct (c_count (c_update now (t_ack (s_timer s))) =? c_max (c_update now (t_ack (s_timer s))));
+    [apply SU_handle_fault | apply SU_set_eof_flag]; exact H3.
+Qed.
 Lemma SU_handle_timeout now s : SU s -> SU (s_handle_timeout now s).
 Proof.
-  intros H. unfold Send.s_handle_timeout, c_limit_reached, c_timeout_occurred.
+  intros H. unfold Send.s_handle_timeout, c_limit_reached.
   destruct (s_phase s) eqn:Ep; try exact H; cbn [fst snd].
   - set (s1 := supd_inact (fun _ => c_update now (t_inact (s_timer s))) s).
-    assert (H1 : SU s1) by (unfold s1; su_leaf; exact H).
-    assert (H2 : SU (if c_count (c_update now (t_inact (s_timer s))) =? c_max (c_update now (t_inact (s_timer s)))
-                     then s_handle_fault now InactivityDetected s1 else s1)).
-    { destruct (_ =? _); [apply SU_handle_fault|]; exact H1. }
-    clearbody s1. remember (if _ =? _ then _ else s1) as s2 eqn:E2. clear E2 H1.
-    set (s3 := supd_ack (fun _ => c_update now (t_ack (s_timer s2))) s2).
-    assert (H3 : SU s3) by (unfold s3; su_leaf; exact H2).
-    destruct (c_occurred _); [|exact H3].
-    destruct (_ =? _); [apply SU_handle_fault | apply SU_set_eof_flag]; exact H3.
+    assert (H1 : SU s1) by (unfold s1; su_leaf; exact H). clearbody s1.
+    destruct (c_count (c_update now (t_inact (s_timer s))) =? c_max (c_update now (t_inact (s_timer s)))); cbn [andb].
+    + pose proof (SU_handle_fault now InactivityDetected s1 H1) as H2.
+      destruct (negb (sphase_eqb (s_phase (s_handle_fault now InactivityDetected s1)) SendEof)
+                || negb (tstate_eqb (s_state (s_handle_fault now InactivityDetected s1)) TActive));
+        [exact H2|apply SU_ht_ack_eof; exact H2].
+    + apply SU_ht_ack_eof; exact H1.
   - set (s1 := supd_inact (fun _ => c_update now (t_inact (s_timer s))) s).
-    assert (H1 : SU s1) by (unfold s1; su_leaf; exact H).
-    assert (H2 : SU (if c_count (c_update now (t_inact (s_timer s))) =? c_max (c_update now (t_inact (s_timer s)))
-                     then s_abandon now s1 else s1)).
-    { destruct (_ =? _); [apply SU_abandon|]; exact H1. }
-    clearbody s1. remember (if _ =? _ then _ else s1) as s2 eqn:E2. clear E2 H1.
-    set (s3 := supd_ack (fun _ => c_update now (t_ack (s_timer s2))) s2).
-    assert (H3 : SU s3) by (unfold s3; su_leaf; exact H2).
-    destruct (c_occurred _); [|exact H3].
-    destruct (_ =? _); [apply SU_abandon | apply SU_set_eof_flag]; exact H3.
+    assert (H1 : SU s1) by (unfold s1; su_leaf; exact H). clearbody s1.
+    destruct (c_count (c_update now (t_inact (s_timer s))) =? c_max (c_update now (t_inact (s_timer s))));
+      [apply SU_abandon; exact H1|].
+    unfold c_timeout_occurred. cbn [fst snd].
+    set (s3 := supd_ack (fun _ => c_update now (t_ack (s_timer s1))) s1).
+    assert (H3 : SU s3) by (unfold s3; su_leaf; exact H1). clearbody s3.
+    destruct (c_occurred (c_update now (t_ack (s_timer s1)))); [|exact H3].
+    destruct (c_count (c_update now (t_ack (s_timer s1))) =? c_max (c_update now (t_ack (s_timer s1))));
+      [apply SU_abandon | apply SU_set_eof_flag]; exact H3.
 Qed.
 Lemma SU_process_pdu now p s : SU s -> SU (fst (s_process_pdu now p s)).
 Proof.
